@@ -70,7 +70,7 @@ func VerifHarness_C16_connect_twice() {
 	vReach("end")
 }
 
-//verif:props=C16,C15 replay=model bounds="one manager, two allocations of different users, one peer connection; all ids; bind deadline fired before/after bind"
+//verif:props=C16,C15,C18 replay=model bounds="one manager, two allocations of different users, one peer connection; all ids; bind deadline fired before/after bind"
 func VerifHarness_C16_bind_once() {
 	env := VNewManager(false, false)
 	m := env.M
@@ -202,7 +202,7 @@ func VerifHarness_C06_create_expire() {
 
 // The duplicate-connection rule is per allocation: two clients may each connect to the same peer.
 //
-//verif:props=C04,C16 bounds="two TCP allocations on distinct 5-tuples; both Connect to the same arbitrary IPv4 peer"
+//verif:props=C04,C16,C18 bounds="two TCP allocations on distinct 5-tuples; both Connect to the same arbitrary IPv4 peer"
 func VerifHarness_C04_connect_same_peer_from_two_allocations() {
 	env := VNewManager(false, false)
 	m := env.M
@@ -253,7 +253,7 @@ func VerifHarness_C16_ids_unique_across_allocations() {
 
 // EVEN-PORT probing: every socket opened to find an even port is closed again, whatever ports come up.
 //
-//verif:props=C15 unwind=20 bounds="0..3 odd ports before an even one; the probe may also fail"
+//verif:props=C15,C18 unwind=20 bounds="0..3 odd ports before an even one; the probe may also fail"
 func VerifHarness_C15_even_port_probe() {
 	env := VNewManager(true, false)
 	k := vPick(0, 3)
